@@ -1462,7 +1462,16 @@ fn exec_ident(sc: &Scenario) -> Out {
     const SYS: usize = usize::MAX;
     let (tx, rx) = mpsc::channel::<Rec>();
     let sent_ok = Arc::new(AtomicBool::new(true));
-    let here = || (thread::current().id(), System::try_current().map(|s| s.id()));
+    // `try_current` agrees with `current`, `is_registered` is true inside tasks …
+    let here = || {
+        let id = System::try_current().map(|s| s.id());
+        let consistent = System::is_registered() && Arbiter::try_current().is_some() && id == Some(System::current().id());
+        (thread::current().id(), if consistent { id } else { None })
+    };
+    // … and on a thread that belongs to no System there is nothing to be found
+    let fresh_clean = thread::spawn(|| System::try_current().is_none() && Arbiter::try_current().is_none() && !System::is_registered())
+        .join()
+        .unwrap_or(false);
     for (a, arb) in arbs.iter().enumerate() {
         let tx = tx.clone();
         let sent_ok = sent_ok.clone();
@@ -1569,6 +1578,10 @@ fn exec_ident(sc: &Scenario) -> Out {
             why = format!("arbiter {a} shares its thread with the system or another arbiter");
         }
         threads.push(p.2);
+    }
+    if !fresh_clean {
+        ok = false;
+        why = "System::try_current() / Arbiter::try_current() / System::is_registered() report a system on a thread that has none".into();
     }
     if !sent_ok.load(Ordering::SeqCst) {
         ok = false;
